@@ -54,13 +54,14 @@ type conn struct {
 	frozen  bool
 
 	// current round trip
-	rtOpen       bool
-	rtIndex      int
-	rtFault      *Fault
+	rtOpen        bool
+	rtIndex       int
+	rtFault       *Fault
 	rtFailPending bool
-	rtCommitted  bool
-	rtWithhold   bool
-	skipToSync   bool
+	rtCommitted   bool
+	rtWithhold    bool
+	skipToSync    bool
+	stmtTxID      uint64 // id of the explicit transaction the current statement started in
 }
 
 func (c *conn) send(m pgproto3.BackendMessage) { c.out = m.Encode(c.out) }
@@ -354,7 +355,7 @@ func (c *conn) failTx() {
 func (c *conn) sendError(err error, sql string) {
 	pe := asPgError(err)
 	if pe.Code == "0A000" {
-		c.db.noteUnsupported(sql + " -- " + pe.Msg)
+		c.db.noteUnsupported(sql, pe.Msg)
 	}
 	c.send(&pgproto3.ErrorResponse{
 		Severity: "ERROR", SeverityUnlocalized: "ERROR", Code: pe.Code, Message: pe.Msg,
@@ -371,7 +372,8 @@ func (c *conn) traceStmt(st *stmt, sql string, args []any, ptypes []typ, res *re
 	if st != nil {
 		ev.Kind, ev.Name, ev.SQL = st.traceKind(), st.name, st.sql
 	}
-	if tx := c.sess.tx; tx != nil {
+	ev.TxID = c.stmtTxID
+	if tx := c.sess.tx; tx != nil && tx.id != 0 {
 		ev.TxID = tx.id
 	}
 	if len(args) > 0 {
@@ -398,6 +400,10 @@ func (c *conn) traceStmt(st *stmt, sql string, args []any, ptypes []typ, res *re
 // runStmt executes one statement (any kind) with transaction bookkeeping.
 func (c *conn) runStmt(st *stmt, p *plan, params []any) (*result, error) {
 	s := c.sess
+	c.stmtTxID = 0
+	if s.tx != nil {
+		c.stmtTxID = s.tx.id
+	}
 	switch st.kind {
 	case skBegin:
 		if s.tx != nil && !s.tx.implicit {
